@@ -5,7 +5,7 @@ key, zip, AAD, epk validity, and the VERDICT of every unwrap / AEAD primitive.  
 AEAD primitive was asked exactly once, said "valid", about AAD = received protected segment ['.' received aad], the decoded
 IV (of the enc's size) and the whole decoded tag, under the CEK recovered from THIS token with the recipient's key."""
 from typing import Optional, List
-import json, binascii
+import json, binascii, os
 from joserfc import jwe
 from joserfc.jwk import KeySet
 from joserfc.jwe import JWERegistry
@@ -35,7 +35,7 @@ def octets(n, seed=1):
     return bytes((seed * 31 + i * 7) % 256 for i in range(n))
 
 
-def scenario(mode_i, enc_i, iv_i, tag_i, ek_present, cek_i, has_zip, epk_bad):
+def scenario(mode_i, enc_i, iv_i, tag_i, ek_present, cek_i, has_zip, epk_bad, p2c=1000):
     mode = MODES[mode_i]
     alg = "ECDH-ES" if mode == "ECDH-ES/OKP" else mode
     encname, ivlen, ceklen, kind = ENCS[enc_i]
@@ -49,7 +49,7 @@ def scenario(mode_i, enc_i, iv_i, tag_i, ek_present, cek_i, has_zip, epk_bad):
         hdr["iv"], hdr["tag"] = "KWIVSEG", "KWTAGSEG"
         binds[b"KWIVSEG"], binds[b"KWTAGSEG"] = octets(12, 5), octets(16, 6)
     if mode.startswith("PBES2"):
-        hdr["p2s"], hdr["p2c"] = "P2SSEG", 1000
+        hdr["p2s"], hdr["p2c"] = "P2SSEG", p2c
         binds[b"P2SSEG"] = b"salt-input"
     if mode.startswith("ECDH"):
         if mode == "ECDH-ES/OKP":
@@ -61,7 +61,7 @@ def scenario(mode_i, enc_i, iv_i, tag_i, ek_present, cek_i, has_zip, epk_bad):
     tagv = octets([16, 8, 0, 17][tag_i], 3)
     cekv = octets([ceklen, ceklen - 8, ceklen + 8][cek_i], 4)
     return dict(mode=mode, alg=alg, enc=encname, kind=kind, ivlen=ivlen, ceklen=ceklen, hdr=hdr, key=key, binds=binds,
-                iv=ivv, tag=tagv, cek=cekv, ek=EKV if ek_present else b"", epk_bad=epk_bad)
+                iv=ivv, tag=tagv, cek=cekv, ek=EKV if ek_present else b"", epk_bad=epk_bad, p2c=p2c)
 
 
 def make_env(sc, verdicts):
@@ -162,7 +162,7 @@ def check_cek(env, sc, key):
         if len(ps) != 1 or len(us) != 1 or not us[0]["verdict"]:
             return None
         p = ps[0]
-        if p["hash"] != "sha256" or p["length"] != 16 or p["salt"] != b"PBES2-HS256+A128KW\x00salt-input" or p["iterations"] != 1000 or p["key"] != key.raw_value:
+        if p["hash"] != "sha256" or p["length"] != 16 or p["salt"] != b"PBES2-HS256+A128KW\x00salt-input" or p["iterations"] != sc["p2c"] or p["key"] != key.raw_value:
             return None
         if us[0]["key"] != p["out"] or us[0]["ek"] != sc["ek"]:
             return None
@@ -223,9 +223,9 @@ def judge_compact(env, obj, sc):
     return obj.plaintext == want and obj.protected == sc["hdr"]
 
 
-def _compact(mode_i, enc_i, iv_i, tag_i, ek_present, cek_i, has_zip, epk_bad, v0, v1):
+def _compact(mode_i, enc_i, iv_i, tag_i, ek_present, cek_i, has_zip, epk_bad, v0, v1, p2c=1000):
     rt.tick()
-    sc = scenario(mode_i, enc_i, iv_i, tag_i, ek_present, cek_i, has_zip, epk_bad)
+    sc = scenario(mode_i, enc_i, iv_i, tag_i, ek_present, cek_i, has_zip, epk_bad, p2c)
     env, obj, exc = run_compact(sc, [v0, v1])
     if obj is None:
         return True
@@ -280,12 +280,15 @@ def compact_ecdhkw(enc_i: int, iv_i: int, tag_i: int, ek_present: bool, cek_i: i
     return _compact(5, enc_i, iv_i, tag_i, ek_present, cek_i, False, epk_bad, v0, v1)
 
 
-def compact_pbes2(enc_i: int, iv_i: int, tag_i: int, ek_present: bool, cek_i: int, v0: bool, v1: bool) -> bool:
+def compact_pbes2(enc_i: int, iv_i: int, tag_i: int, ek_present: bool, cek_i: int, p2c_i: int, v0: bool, v1: bool) -> bool:
     """
-    pre: 0 <= enc_i <= 1 and 0 <= iv_i <= 1 and 0 <= tag_i <= 1 and 0 <= cek_i <= 2
+    pre: 0 <= enc_i <= 1 and 0 <= iv_i <= 1 and 0 <= tag_i <= 1 and 0 <= cek_i <= 2 and 0 <= p2c_i <= 3
     post: _
     """
-    return _compact(6, enc_i, iv_i, tag_i, ek_present, cek_i, False, 0, v0, v1)
+    return _compact(6, enc_i, iv_i, tag_i, ek_present, cek_i, False, 0, v0, v1, P2C[p2c_i])
+
+
+P2C = [1000, 1, 999, 4096]         # the iteration count the key is derived with is the one in the header, small or large
 
 
 def compact_1pu(direct: bool, enc_i: int, iv_i: int, tag_i: int, ek_present: bool, cek_i: int, epk_bad: int, sender_i: int, v0: bool, v1: bool) -> bool:
@@ -471,7 +474,7 @@ def _mint(sc, R, vu, va, extra_hdr=None, aad=None):
     jwk = R.test_key(kind)
     wrong = [sc["ceklen"], sc["ceklen"] - 8, sc["ceklen"] + 8][[len(sc["cek"]) == sc["ceklen"], len(sc["cek"]) < sc["ceklen"], len(sc["cek"]) > sc["ceklen"]].index(True)]
     cek_in = None if wrong == sc["ceklen"] else bytes((i * 5 + 1) % 256 for i in range(wrong))
-    add, ek, cek = R.key_manage(alg, enc, R.public_jwk(jwk) if jwk["kty"] != "oct" else jwk, cek=cek_in, p2s=b"salt-input", p2c=1000,
+    add, ek, cek = R.key_manage(alg, enc, R.public_jwk(jwk) if jwk["kty"] != "oct" else jwk, cek=cek_in, p2s=b"salt-input", p2c=sc.get("p2c", 1000),
                                 sender_priv=sc.get("sender_jwk"))
     hdr = {"alg": alg, "enc": enc, **add}
     if "zip" in sc["hdr"]:
@@ -520,6 +523,7 @@ def replay(func, call):
     from vlib import refjose as R
     from joserfc.jwk import JWKRegistry
     args = eval("(" + call + ",)")
+    p2c = 1000
     if func.startswith("compact_"):
         if func == "compact_dir":
             enc_i, iv_i, tag_i, ek_present, has_zip, v0 = args
@@ -528,7 +532,11 @@ def replay(func, call):
             enc_i, iv_i, tag_i, ek_present, cek_i, has_zip, v0, v1 = args
             mode_i, epk_bad = 1, 0
         elif func in ("compact_gcmkw", "compact_rsa", "compact_pbes2"):
-            enc_i, iv_i, tag_i, ek_present, cek_i, v0, v1 = args
+            if func == "compact_pbes2":
+                enc_i, iv_i, tag_i, ek_present, cek_i, p2c_i, v0, v1 = args
+                p2c = P2C[p2c_i]
+            else:
+                enc_i, iv_i, tag_i, ek_present, cek_i, v0, v1 = args
             mode_i, has_zip, epk_bad = {"compact_gcmkw": 2, "compact_rsa": 3, "compact_pbes2": 6}[func], False, 0
         elif func == "compact_ecdh":
             okp, enc_i, iv_i, tag_i, ek_present, epk_bad, v0 = args
@@ -541,7 +549,7 @@ def replay(func, call):
             mode_i, has_zip = (8 if direct1 else 9), False
         else:
             return {"violated": None, "detail": "witness"}
-        sc = scenario(mode_i, enc_i, iv_i, tag_i, ek_present, cek_i, has_zip, epk_bad)
+        sc = scenario(mode_i, enc_i, iv_i, tag_i, ek_present, cek_i, has_zip, epk_bad, p2c)
         sender_arg = None
         if func == "compact_1pu":
             from cryptography.hazmat.primitives.asymmetric import ec as _ec
@@ -597,6 +605,17 @@ def replay(func, call):
                     except Exception as e:  # noqa
                         last = {"violated": False, "detail": "real code rejected (%s)" % type(e).__name__}
                 if obj is None:
+                    honest = iv_i == 0 and tag_i == 0 and cek_i == 0 and epk_bad == 0 and vu and va and (ek_present != direct) and not respelt \
+                        and (func != "compact_1pu" or sender_i == 0)
+                    if honest and os.environ.get("VERIF_PROPERTY") == "C08":
+                        # wire-format property: an untampered token of the independent implementation must decrypt
+                        try:
+                            ref_pt, _ = R.compact_decrypt(token, jwk, sender_pub=R.public_jwk(sc["sender_jwk"]) if func == "compact_1pu" else None)
+                        except R.RefError:
+                            ref_pt = None
+                        if ref_pt == (pt if True else None):
+                            return {"violated": True, "key": "c08-consumer", "detail": "joserfc rejects (%s) an untampered %s/%s token minted by the independent "
+                                    "implementation (header %r)" % (last["detail"], sc["alg"], sc["enc"], hdr)}
                     continue
                 try:
                     ref_pt, _ = R.compact_decrypt(token, jwk, sender_pub=R.public_jwk(sc["sender_jwk"]) if sender_arg is not None and sender_i == 0 else None) \
